@@ -311,7 +311,12 @@ def canon(ctx):
     if w is None:
         ctx.ob('CANON', 'anchor', False, None, 'write_canonical_form not found')
         return
-    fam = [w] + [c for c in f.body_list if c.id.startswith(w.id + '::{closure#')]
+    def first_occurrence_unit(c):
+        return any(call_matches(t, ['Index::index', 'IndexMut::index_mut', 'IndexMut<I>>::index_mut', 'Index<I>>::index']) for bb, t in c.calls()) and \
+            any('fully_qualified_name' in cname(t) for bb, t in c.calls())
+    # the first-occurrence test is a callable unit: a closure of the writer, or a helper method it calls
+    w, units = f.with_units(w, first_occurrence_unit)
+    fam = [w] + f.closures_of(w) + units
     for b in fam:
         ctx.touched(b, len(b.calls()))
     # never reads logical_type / schema_json / docs
@@ -345,9 +350,8 @@ def canon(ctx):
         for v in r.variants:
             kinds[v] = r
     ctx.floor('CANON', 'kinds with an arm', len(kinds), 14)
-    firsts = [c for c in fam if c is not w and any(call_matches(t, ['Index::index', 'IndexMut::index_mut', 'IndexMut<I>>::index_mut', 'Index<I>>::index']) for bb, t in c.calls()) and
-              any('fully_qualified_name' in cname(t) for bb, t in c.calls())]
-    ctx.ob('CANON', 'first-occurrence-closure', len(firsts) == 1, short_loc(w.span), '%d closure(s) testing/setting the per-node "already written" flag and writing the quoted fullname otherwise' % len(firsts))
+    firsts = [c for c in fam if c is not w and first_occurrence_unit(c)]
+    ctx.ob('CANON', 'first-occurrence-closure', len(firsts) == 1, short_loc(w.span), '%d closure(s)/helper(s) testing/setting the per-node "already written" flag and writing the quoted fullname otherwise' % len(firsts))
     if len(firsts) == 1:
         fc = firsts[0]
         # inside: false => set true, return true ; true => write '"' name '"' and return false
@@ -355,14 +359,15 @@ def canon(ctx):
         for bb, t in fc.calls():
             if call_matches(t, ['IndexMut::index_mut', 'IndexMut<I>>::index_mut', 'Index::index', 'Index<I>>::index']):
                 idxo = origin(fc, t['args'][1])
-        key_ok = idxo is not None and 'idx' in idxo.fields and 'upvar' in idxo.flags
+        is_closure = fc.j.get('kind') == 'closure'
+        key_ok = idxo is not None and 'idx' in idxo.fields and ('upvar' in idxo.flags if is_closure else bool(idxo.params()))
         ctx.ob('CANON', 'first-occurrence-keyed-by-node', key_ok, short_loc(fc.span), 'the flag is indexed by the key of the node being written: %s' % key_ok)
         for kind in ('Record', 'Enum', 'Fixed'):
             r = kinds.get(kind)
             ok = False
             det = 'no arm'
             if r is not None:
-                cl = [(bb, w.term(bb)) for bb in sorted(r.blocks) if w.term(bb)['k'] == 'call' and (w.term(bb).get('resolved') or '') == fc.id]
+                cl = [(bb, w.term(bb)) for bb in sorted(r.blocks) if w.term(bb)['k'] == 'call' and fc.id in ((w.term(bb).get('resolved') or ''), (w.term(bb).get('callee') or ''))]
                 writes = [bb for bb in sorted(r.blocks) if w.term(bb)['k'] == 'call' and strip_generics(cname(w.term(bb))).endswith('ErrorConversionWriter::write_str')]
                 ok = len(cl) == 1
                 det = '%d call(s) to the first-occurrence test' % len(cl)
@@ -379,9 +384,11 @@ def canon(ctx):
                                     g = True
                         good = good and g
                     # the name handed to it is this node's name
-                    no = origin(w, cl[0][1]['args'][1])
-                    ok = good and bool(writes) and 'name' in no.fields
-                    det = 'full form written only when the first-occurrence test says so: %s; it receives the node\'s name: %s' % (good, 'name' in no.fields)
+                    has_name = any('name' in origin(w, a).fields for a in cl[0][1]['args'][1:])
+                    # a helper (unlike a closure, which captures it) is handed the key of the node being written
+                    has_key = is_closure or any(a_ for a_ in cl[0][1]['args'][1:] if any((w.local_ty(p_) or '').endswith('SchemaKey') for p_ in origin(w, a_).params()) and 'name' not in origin(w, a_).fields)
+                    ok = good and bool(writes) and has_name and has_key
+                    det = 'full form written only when the first-occurrence test says so: %s; it receives the node\'s name: %s (and key: %s)' % (good, has_name, has_key)
             ctx.ob('CANON', 'named-once/%s' % kind, ok, short_loc(w.span), det)
     # fully qualified names everywhere a name is written
     for kind in ('Record', 'Enum', 'Fixed'):
@@ -449,7 +456,7 @@ def canon(ctx):
             continue
         got = region_template(w, r)
         ctx.ob('CANON', 'template/%s' % kind, got == want, short_loc(w.span), '%s is written as %s (spec template %s; $ = dynamic text, @ = nested schema, "," only between items)' % (kind, got, want))
-    canon_extra(ctx, w)
+    canon_extra(ctx, w, fam)
 
 
 def canon_state_rule(ctx):
@@ -464,13 +471,13 @@ def canon_state_rule(ctx):
            'fields of the recursive canonical-form writer: %s (reviewed: the writer and two per-node boolean tables)' % ([x['name'] + ': ' + x['ty'][:40] for x in a['variants'][0]['fields']] if a else None))
 
 
-def canon_extra(ctx, w):
+def canon_extra(ctx, w, fam=None):
     canon_state_rule(ctx)
     """the named-once table is indexed by the node key itself; the separators are live code"""
     f = ctx.f
     n_idx = 0
     bad = []
-    for b in [w] + f.closures_of(w):
+    for b in (fam or [w] + f.closures_of(w)):
         for bb, t in b.calls():
             if call_matches(t, ['IndexMut::index_mut', 'IndexMut<I>>::index_mut', 'Index::index', 'Index<I>>::index']):
                 vo = origin(b, t['args'][0])
